@@ -1,0 +1,11 @@
+//go:build verif
+
+// Contracts for the deductive verifier in /verif (comment-only file; compiled out
+// unless the build tag `verif` is set, and even then contains no executable code).
+package utils
+
+// Sorting reorders the elements of the slice in place and touches nothing else (assumed here;
+// the comparator is under contract separately).
+//@ func SortSearchResults
+//@   trusted
+//@   modifies results
